@@ -5,11 +5,17 @@
 cd /verif
 dirs=${@:-/verif/benign/*}
 out=$(mktemp -d)
-run1() { pf=$1; out=$2; W=330 /verif/tools/tb1.sh $pf all > $out/$(basename $pf .diff).txt 2>&1; }
+run1() { pf=$1; out=$2; W=330 /verif/tools/tb1.sh $pf all > $out/$(basename $(dirname $pf))-$(basename $pf .diff).txt 2>&1; }
 export -f run1
 ls $(for d in $dirs; do echo $d/*.diff; done) | xargs -P 7 -I{} bash -c "run1 {} $out"
-n=0; bad=0
-for f in $out/*.txt; do n=$((n+1)); if [ -s $f ]; then bad=$((bad+1)); echo "== FALSE ALARM on $(basename $f .txt)"; cut -c1-300 $f; fi; done
-echo "benign corpus: $((n-bad)) of $n patches silent under all checks"
+n=0; bad=0; lim=0
+known=$(cat /verif/benign/*/KNOWN-LIMITS.txt 2>/dev/null | grep -v '^#' | cut -f1)
+for f in $out/*.txt; do
+  n=$((n+1)); id=$(basename $f .txt)
+  if [ -s $f ]; then
+    if echo "$known" | grep -qx "$id"; then lim=$((lim+1)); echo "== known limit: $id still alarms ($(wc -l < $f) lines)"; else bad=$((bad+1)); echo "== FALSE ALARM on $id"; cut -c1-300 $f; fi
+  fi
+done
+echo "benign corpus: $((n-bad-lim)) of $n patches silent under all checks, $lim known limits, $bad new false alarms"
 rm -rf $out
 [ $bad -eq 0 ]
